@@ -1,25 +1,27 @@
-//! C05, second part: the PRODUCTION mutators of the access-control configuration and
+//! C05, second part (the first-generation production ops `acli`, `aclupd`, .. `reload` are in c05.rs;
+//! the ops here carry the error codes, drive the cluster handler and a persistent store, and are
+//! followed by table dumps): the PRODUCTION mutators of the access-control configuration and
 //! `Accessor::for_session`, driven for real.
 //!
 //! Ops (all self-contained text; `<fab>` = fabric index, errors are the `ErrorCode` names):
 //!   enums v p o m a P C G                              => ok      wire values of the two enumerations
-//!   aclu <fab> <idx> <privbits> <c|g|p> <subj> <targs>   => ok|Err            Fabric::acl_update
-//!   acli <fab> r <stamp|-> <privbits> <c|g|p> <subj> <targs>  => <idx>|Err    Fabric::acl_add_init(AclEntry::init(stamp,..).chain(..))
-//!   acli <fab> t <ifab> <wire>                           => <idx>|Err         Fabric::acl_add_init(AclEntry::init_with(ifab, wire))
-//!   aclui <fab> <idx> r <stamp|-> <privbits> <m> <subj> <targs> | aclui <fab> <idx> t <ifab> <wire>  => ok|Err   Fabric::acl_update_init
-//!   aclrm <fab> <idx>                                    => ok|Err            Fabric::acl_remove
-//!   aclclr <fab>                                         => ok|Err            Fabric::acl_remove_all
+//!   aupd <fab> <idx> <privbits> <c|g|p> <subj> <targs>   => ok|Err            Fabric::acl_update
+//!   ainit <fab> r <stamp|-> <privbits> <c|g|p> <subj> <targs>  => <idx>|Err    Fabric::acl_add_init(AclEntry::init(stamp,..).chain(..))
+//!   ainit <fab> t <ifab> <wire>                           => <idx>|Err         Fabric::acl_add_init(AclEntry::init_with(ifab, wire))
+//!   uinit <fab> <idx> r <stamp|-> <privbits> <m> <subj> <targs> | uinit <fab> <idx> t <ifab> <wire>  => ok|Err   Fabric::acl_update_init
+//!   arm <fab> <idx>                                      => ok|Err            Fabric::acl_remove
+//!   aclr <fab>                                           => ok|Err            Fabric::acl_remove_all
 //!   hw <fab> replace <wire>|<wire>.. (or `-` = empty list) | hw <fab> add <wire> | hw <fab> upd <idx> <wire> | hw <fab> rm <idx>
 //!                                                        => ok|Err|panic      AclHandler::set_acl(fabric, value)  (hook verif_set_acl)
 //!   gadd <fab> <gid> <ep>                                => new|member|Err    Groups::add
 //!   grm <fab> <ep> <gid|*>                               => yes|no|Err        Groups::remove
-//!   gjoin <fab> <gid> <eps|-> <replace 0|1> <policy -|0|1>  => ok|Err         Groups::groupcast_join
+//!   join <fab> <gid> <eps|-> <replace 0|1> <policy -|0|1>   => ok|Err         Groups::groupcast_join
 //!   gcrm <fab> <gid>                                     => yes|no|Err        Groups::groupcast_remove
 //!   gauxr <fab> <gid> <0|1>                              => yes|no|Err        Groups::set_has_aux_acl (no existence check)
 //!   st <fab>                                             => ok|Err|panic      FabricPersist::store(fabrics.get(fab))
 //!   strm <fab>                                           => ok                FabricPersist::remove(fab)
 //!   load                                                 => ok|Err            Fabrics::load_persist
-//!   reload <fab>                                         => ok|Err            the fabric part of the fail-safe roll-back (hook verif_add_load)
+//!   rollback <fab>                                       => ok|Err            the fabric part of the fail-safe roll-back (hook verif_add_load)
 //!   faba <subject>                                       => <idx>|Err         Fabrics::add(.., case_admin_subject) with real certificates
 //!   wipe                                                 => ok|Err            Fabrics::reset_persist
 //!   dump                                                 => canonical text of the whole fabric table
@@ -419,7 +421,7 @@ pub(crate) fn run_op(matter: &Matter<'_>, w: &[&str], out: &mut Out) -> Option<S
             let mut buf = vec![0u8; KV_BUF];
             matter.with_state(|state| res_unit(state.fabrics.reset_persist(&mut MemKv, &mut buf)))
         }),
-        ["aclu", fab, idx, pb, mode, subjects, targets] => {
+        ["aupd", fab, idx, pb, mode, subjects, targets] => {
             let (Some(fab), Some(mode), Ok(idx), Ok(pb)) = (fab_of(fab), mode_of(mode), idx.parse::<usize>(), pb.parse::<u8>()) else { return Some("badop".into()) };
             let mut e = AclEntry::new(None, Privilege::from_bits_retain(pb), mode);
             if fill_entry(&mut e, subjects, targets).is_err() {
@@ -430,7 +432,7 @@ pub(crate) fn run_op(matter: &Matter<'_>, w: &[&str], out: &mut Out) -> Option<S
                 Ok(f) => res_unit(f.acl_update(idx, e)),
             })
         }
-        ["acli", fab, "r", stamp, pb, mode, subjects, targets] => {
+        ["ainit", fab, "r", stamp, pb, mode, subjects, targets] => {
             let (Some(fab), Some(mode), Ok(pb)) = (fab_of(fab), mode_of(mode), pb.parse::<u8>()) else { return Some("badop".into()) };
             let stamp = fab_of(stamp);
             matter.with_state(|state| match state.fabrics.fabric_mut(fab) {
@@ -446,7 +448,7 @@ pub(crate) fn run_op(matter: &Matter<'_>, w: &[&str], out: &mut Out) -> Option<S
                 }
             })
         }
-        ["acli", fab, "t", ifab, wire] => {
+        ["ainit", fab, "t", ifab, wire] => {
             let (Some(fab), Some(ifab), Some(bytes)) = (fab_of(fab), fab_of(ifab), wire_bytes(wire)) else { return Some("badop".into()) };
             let entry = AccessControlEntryStruct::new(TLVElement::new(&bytes));
             matter.with_state(|state| match state.fabrics.fabric_mut(fab) {
@@ -457,7 +459,7 @@ pub(crate) fn run_op(matter: &Matter<'_>, w: &[&str], out: &mut Out) -> Option<S
                 },
             })
         }
-        ["aclui", fab, idx, "r", stamp, pb, mode, subjects, targets] => {
+        ["uinit", fab, idx, "r", stamp, pb, mode, subjects, targets] => {
             let (Some(fab), Some(mode), Ok(idx), Ok(pb)) = (fab_of(fab), mode_of(mode), idx.parse::<usize>(), pb.parse::<u8>()) else { return Some("badop".into()) };
             let stamp = fab_of(stamp);
             matter.with_state(|state| match state.fabrics.fabric_mut(fab) {
@@ -470,7 +472,7 @@ pub(crate) fn run_op(matter: &Matter<'_>, w: &[&str], out: &mut Out) -> Option<S
                 }
             })
         }
-        ["aclui", fab, idx, "t", ifab, wire] => {
+        ["uinit", fab, idx, "t", ifab, wire] => {
             let (Some(fab), Some(ifab), Ok(idx), Some(bytes)) = (fab_of(fab), fab_of(ifab), idx.parse::<usize>(), wire_bytes(wire)) else { return Some("badop".into()) };
             let entry = AccessControlEntryStruct::new(TLVElement::new(&bytes));
             matter.with_state(|state| match state.fabrics.fabric_mut(fab) {
@@ -478,14 +480,14 @@ pub(crate) fn run_op(matter: &Matter<'_>, w: &[&str], out: &mut Out) -> Option<S
                 Ok(f) => res_unit(f.acl_update_init(idx, AclEntry::init_with(ifab, &entry))),
             })
         }
-        ["aclrm", fab, idx] => {
+        ["arm", fab, idx] => {
             let (Some(fab), Ok(idx)) = (fab_of(fab), idx.parse::<usize>()) else { return Some("badop".into()) };
             matter.with_state(|state| match state.fabrics.fabric_mut(fab) {
                 Err(e) => err_name(&e),
                 Ok(f) => res_unit(f.acl_remove(idx)),
             })
         }
-        ["aclclr", fab] => {
+        ["aclr", fab] => {
             let Some(fab) = fab_of(fab) else { return Some("badop".into()) };
             matter.with_state(|state| match state.fabrics.fabric_mut(fab) {
                 Err(e) => err_name(&e),
@@ -544,7 +546,7 @@ pub(crate) fn run_op(matter: &Matter<'_>, w: &[&str], out: &mut Out) -> Option<S
                 Ok(f) => (if f.groups_mut().remove(ep, gid) { "yes" } else { "no" }).into(),
             })
         }
-        ["gjoin", fab, gid, eps, replace, policy] => {
+        ["join", fab, gid, eps, replace, policy] => {
             let (Some(fab), Ok(gid)) = (fab_of(fab), gid.parse::<u16>()) else { return Some("badop".into()) };
             let eps: Vec<u16> = if *eps == "-" { Vec::new() } else { eps.split(',').filter_map(|x| x.parse().ok()).collect() };
             use rs_matter::dm::clusters::groupcast::MulticastAddrPolicyEnum;
@@ -591,7 +593,7 @@ pub(crate) fn run_op(matter: &Matter<'_>, w: &[&str], out: &mut Out) -> Option<S
             let mut buf = vec![0u8; KV_BUF];
             matter.with_state(|state| res_unit(state.fabrics.load_persist(&mut MemKv, &mut buf)))
         }),
-        ["reload", fab] => {
+        ["rollback", fab] => {
             let Some(fab) = fab_of(fab) else { return Some("badop".into()) };
             guarded(|| {
                 let mut buf = vec![0u8; KV_BUF];
@@ -849,27 +851,27 @@ pub(crate) fn gen_hist_case(matter: &Matter<'_>, r: &mut Rng, out: &mut Out, id:
             format!("acl {} {}", fab, gen_raw(r, out, uniform))
         } else if sel < 20 {
             out.stat("hist_op_acl_update", 1);
-            format!("aclu {} {} {}", fab, pick_idx(r), gen_raw(r, out, uniform))
+            format!("aupd {} {} {}", fab, pick_idx(r), gen_raw(r, out, uniform))
         } else if sel < 24 {
             out.stat("hist_op_acl_add_init_raw", 1);
-            format!("acli {} r {} {}", fab, other_fab(r), gen_raw(r, out, uniform))
+            format!("ainit {} r {} {}", fab, other_fab(r), gen_raw(r, out, uniform))
         } else if sel < 30 {
             out.stat("hist_op_acl_add_init_wire", 1);
             let ifab = if r.chance(2, 3) { fab } else { *r.pick(&[1u8, 2, 3, 9]) };
-            format!("acli {} t {} {}", fab, ifab, gen_wire(r, out))
+            format!("ainit {} t {} {}", fab, ifab, gen_wire(r, out))
         } else if sel < 33 {
             out.stat("hist_op_acl_update_init_raw", 1);
-            format!("aclui {} {} r {} {}", fab, pick_idx(r), other_fab(r), gen_raw(r, out, uniform))
+            format!("uinit {} {} r {} {}", fab, pick_idx(r), other_fab(r), gen_raw(r, out, uniform))
         } else if sel < 37 {
             out.stat("hist_op_acl_update_init_wire", 1);
             let ifab = if r.chance(2, 3) { fab } else { *r.pick(&[1u8, 2, 3, 9]) };
-            format!("aclui {} {} t {} {}", fab, pick_idx(r), ifab, gen_wire(r, out))
+            format!("uinit {} {} t {} {}", fab, pick_idx(r), ifab, gen_wire(r, out))
         } else if sel < 40 {
             out.stat("hist_op_acl_remove", 1);
-            format!("aclrm {} {}", fab, pick_idx(r))
+            format!("arm {} {}", fab, pick_idx(r))
         } else if sel < 41 {
             out.stat("hist_op_acl_remove_all", 1);
-            format!("aclclr {}", fab)
+            format!("aclr {}", fab)
         } else if sel < 48 {
             out.stat("hist_op_handler_replace", 1);
             let n = *r.pick(&[0usize, 1, 1, 2, 3, MAX_ACL_ENTRIES_PER_FABRIC, MAX_ACL_ENTRIES_PER_FABRIC + 1]);
@@ -894,7 +896,7 @@ pub(crate) fn gen_hist_case(matter: &Matter<'_>, r: &mut Rng, out: &mut Out, id:
             out.stat("hist_op_group_join", 1);
             let n = *r.pick(&[0usize, 1, 2, 2, GROUP_ENDPOINTS_PER_FABRIC, GROUP_ENDPOINTS_PER_FABRIC + 1]);
             let eps: Vec<String> = (0..n).map(|_| r.pick(&H_ENDPOINTS).to_string()).collect();
-            format!("gjoin {} {} {} {} {}", fab, pick_gid(r), if eps.is_empty() { "-".to_string() } else { eps.join(",") }, r.below(2), r.pick(&["-", "0", "1"]))
+            format!("join {} {} {} {} {}", fab, pick_gid(r), if eps.is_empty() { "-".to_string() } else { eps.join(",") }, r.below(2), r.pick(&["-", "0", "1"]))
         } else if sel < 77 {
             out.stat("hist_op_groupcast_remove", 1);
             format!("gcrm {} {}", fab, pick_gid(r))
@@ -915,7 +917,7 @@ pub(crate) fn gen_hist_case(matter: &Matter<'_>, r: &mut Rng, out: &mut Out, id:
             "wipe".into()
         } else {
             out.stat("hist_op_reload", 1);
-            format!("reload {}", if !stored.is_empty() && r.chance(1, 2) { *r.pick(&stored) } else { fab })
+            format!("rollback {}", if !stored.is_empty() && r.chance(1, 2) { *r.pick(&stored) } else { fab })
         };
         let is_handler = op.starts_with("hw ");
         let res = emit(matter, out, op, &mut allow, &mut deny);
